@@ -122,8 +122,128 @@ def muted_interpolated_cases(ctx):
                           {"suite": "muted-interp", "tpb": tpb, "values": vals, "durations_beats": durs, "mode": mode, "mute": [m0, m1]})
 
 
+def run_keyword_cases(ctx):
+    """Stop-when-done through the documented `Timeline.run(stop_when_done=...)` keyword, on a timeline that is used more than
+    once: `run(True)` switches it on, `run(False)` switches it OFF, `run()` keeps what is set.  Differential on the
+    implementation: the same sessions driven by run() with a bounded clock and driven by tick() with the attribute set
+    directly (the route the scheduler model is compared on) must stop on the same ticks and send the same calls; and a
+    session whose effective setting is off delivers every tick."""
+    from .. import common
+    common.ensure_repo_on_path()
+    import isobar as iso
+    from isobar.io.output import OutputDevice
+    r = ctx.rng
+
+    class Rec(OutputDevice):
+        def __init__(self):
+            super().__init__()
+            self.calls = []
+            self.now = 0
+
+        def tick(self):
+            self.now += 1
+
+        def note_on(self, note=60, velocity=64, channel=0):
+            self.calls.append((self.now, "on", note))
+
+        def note_off(self, note=60, channel=0):
+            self.calls.append((self.now, "off", note))
+
+    class Bounded(iso.DummyClock):
+        def __init__(self, tpb):
+            super().__init__(ticks_per_beat=tpb)
+            self.max_ticks, self.hooks, self.done = 0, {}, 0
+
+        def run(self):
+            self.done = 0
+            for n in range(self.max_ticks):
+                if n in self.hooks:
+                    self.hooks[n]()
+                self.clock_target.tick()
+                self.done += 1
+
+    def track(spec):
+        m, dur, base = spec
+        return {"note": iso.PSequence([base + k for k in range(m)], 1), "duration": dur, "gate": 0.5}
+
+    def drive(tpb, sessions, via_run):
+        dev = Rec()
+        clock = Bounded(tpb)
+        tl = iso.Timeline(tempo=120, output_device=dev, clock_source=clock)
+        done, running = [], []
+        for (x, at_start, hooks, nticks) in sessions:
+            for spec in at_start:
+                tl.schedule(track(spec))
+            hk = {h: (lambda spec=spec: tl.schedule(track(spec))) for h, spec in hooks.items()}
+            if via_run:
+                clock.max_ticks, clock.hooks = nticks, hk
+                if x is None:
+                    tl.run()
+                else:
+                    tl.run(stop_when_done=x)
+                done.append(clock.done)
+            else:
+                if x is not None:
+                    tl.stop_when_done = x
+                n = 0
+                try:
+                    for k in range(nticks):
+                        if k in hk:
+                            hk[k]()
+                        tl.tick()
+                        n += 1
+                except StopIteration:
+                    pass
+                done.append(n)
+        return done, dev.calls
+
+    for i in range(ctx.scale(100, 4000)):
+        tpb = r.choice([2, 4, 8, 24])
+        sessions, eff, effs = [], False, []
+        base = 40
+        for sn in range(r.randint(2, 4)):
+            x = r.choice([True, True, False, False, None])
+            eff = eff if x is None else x
+            effs.append(eff)
+            at_start = []
+            for _ in range(r.choice([0, 1, 1, 2])):
+                at_start.append((r.randint(1, 3), r.choice([0.5, 1]), base))
+                base += 5
+            hooks = {}
+            if r.random() < 0.6:
+                # a track that arrives after an idle gap: with stop-when-done off it must still play
+                hooks[r.randint(1, 5 * tpb)] = (r.randint(1, 2), r.choice([0.5, 1]), base)
+                base += 5
+            sessions.append((x, at_start, hooks, r.randint(2 * tpb, 7 * tpb)))
+        try:
+            a_done, a_calls = drive(tpb, sessions, True)
+            b_done, b_calls = drive(tpb, sessions, False)
+        except Exception as ex:
+            ctx.note("run keyword case failed to run: %r" % (ex,))
+            continue
+        case = {"tpb": tpb, "sessions": [{"run_keyword": x, "tracks_at_start": at, "scheduled_at_tick": {str(k): v for k, v in hk.items()},
+                                          "ticks_offered": n, "effective_stop_when_done": e}
+                                         for (x, at, hk, n), e in zip(sessions, effs)]}
+        ctx.case(("run-keyword", repr(case)), nontrivial=len(set(effs)) > 1, validated=False, sample=dict(case, ticks_delivered=a_done) if i < 3 else None)
+        ctx.count("run-keyword:sessions=%d" % len(sessions))
+        bad = None
+        for sn, ((x, at, hk, n), e) in enumerate(zip(sessions, effs)):
+            if not e and a_done[sn] != n:
+                bad = ("C06:stopped-although-stop-when-done-off",
+                       "session %d: run(stop_when_done=%r) with stop-when-done effectively off delivered %d of %d ticks" % (sn, x, a_done[sn], n))
+                break
+        if not bad and (a_done != b_done or a_calls != b_calls):
+            bad = ("C06:run-keyword-differs-from-attribute",
+                   "sessions driven by run(stop_when_done=...) delivered %s ticks and %d calls; by tick() with the attribute set %s ticks and %d calls"
+                   % (a_done, len(a_calls), b_done, len(b_calls)))
+        if bad:
+            ctx.violation(bad[0], bad[1], {"suite": "c06-run-keyword", "case": case,
+                                           "first_failing_clause": "stops on exactly the tick at which the last track is gone and never when stop-when-done is off"})
+
+
 def run(ctx):
     muted_interpolated_cases(ctx)
+    run_keyword_cases(ctx)
     sched_suite.run_suite(ctx, PROF, ctx.scale(2500, 150000), "c06", [limit_oracle], nontrivial, signature_of)
 
 
